@@ -36,6 +36,7 @@ Protect(scheme, r) ==
       [] scheme = "braces-almost-all" -> IF r # <<>> /\ r[1] = 92 THEN <<123>> \o r \o <<125>> ELSE r
       [] scheme = "braces-all" -> <<123>> \o r \o <<125>>
       [] scheme = "braces-after-macro" -> IF EndsInControlWord(r) THEN r \o <<123, 125>> ELSE r
+      [] scheme = "fn-angle" -> <<60>> \o r \o <<62>>       \* a user-supplied callable (documented form of the option): r -> <r>
 
 HexDigit(d) == IF d < 10 THEN 48 + d ELSE 55 + d
 RECURSIVE HexUp(_)
